@@ -71,8 +71,8 @@ var metas = map[string]PropMeta{
 		Assumptions: idxAssume,
 	},
 	"C15": {
-		Explanation: "Nil-guard dataflow over the four lookups (sources: pointer/map fields of go-openapi/spec structs, map lookups of *spec.T without comma-ok), guard rules on the merge function found by role (takes []spec.Parameter, map[string]spec.Parameter, callback), ordering of the two merge calls in each lookup, GUARD-OPFOUND (every merge happens under a fact that establishes the operation asked for, followed to the call sites of closures and unexported helpers), ENC-OVERRIDEKEY, exhaustiveness of the id lookup over the seven methods.",
-		NotDecided:  []string{"collisions of the override key location#GoName", "what jsonpointer returns for exotic $ref targets (trusted base)"},
+		Explanation: "Nil-guard dataflow over the four lookups (sources: pointer/map fields of go-openapi/spec structs, map lookups of *spec.T without comma-ok), guard rules on the merge function found by role (takes []spec.Parameter, map[string]spec.Parameter, callback), ordering of the two merge calls in each lookup, GUARD-OPFOUND (every merge happens under a fact that establishes the operation asked for, followed to the call sites of closures and unexported helpers), ENC-OVERRIDEKEY (no x-… extension and no non-injective function of the name in the override key: known finding at swag.ToGoName), exhaustiveness of the id lookup over the seven methods.",
+		NotDecided:  []string{"what jsonpointer returns for exotic $ref targets (trusted base)"},
 		Assumptions: []string{"a call does not nil-out a field of a value it receives", "function results and parameters of exported functions are not maybe-nil sources (only optional fields of the loaded document are)"},
 	},
 	"C17": {
@@ -91,7 +91,7 @@ var metas = map[string]PropMeta{
 		Assumptions: []string{"Ref.GetURL() != nil characterises a $ref response (go-openapi/jsonreference)"},
 	},
 	"C20": {
-		Explanation: "TERM-REC over the SCC {Schema, inferMap, inferArray, inferFromRef} with measures chosen by search (schema being classified); GUARD-SIMPLEDEF, GUARD-FLAGIMPL, GUARD-EXCL (truth table over the atoms of the defining expressions, has* flags and helper predicates expanded), COV-INHERITS, GUARD-COPYORDER (write-effect summaries of the calls following the copy). PIPE-REFEXPAND (the target of a $ref is fully expanded before it is classified).",
+		Explanation: "TERM-REC over the SCC {Schema, inferMap, inferArray, inferFromRef} with measures chosen by search (schema being classified); GUARD-SIMPLEDEF, GUARD-FLAGIMPL, GUARD-EXCL (truth table over the atoms of the defining expressions, has* flags and helper predicates expanded), COV-INHERITS, GUARD-COPYORDER (write-effect summaries of the calls following the copy). PIPE-REFEXPAND (the target of a $ref is fully expanded before it is classified). GUARD-ROUNDTRIP (no flag tests a list of the schema against nil).",
 		NotDecided:  []string{"agreement of the classification with the documented rules on concrete schemas", "spec.ExpandSchema behaviour (trusted)"},
 		Assumptions: []string{"flags start false (zero value) and are assigned once outside the wholesale copy", "the schema graph reachable through $ref is finite, so a visited set of $ref strings bounds the recursion"},
 	},
